@@ -72,6 +72,13 @@ def replay_cache(call):
                             bad.append('%s call %d: cache is %r, expected %r' % (txt, n_call, dict(c.cache), exp_cache))
                 if not hashable and dict(getattr(c, 'cache', {})) != before:
                     bad.append('%s call %d: unhashable call changed the cache to %r' % (txt, n_call, dict(c.cache)))
+            # a different combination of arguments is a different key: evaluated on its own
+            if hashable and not f_raises and not key_cached:
+                for a2, k2 in ((a, dict(k, extra=1)), (a + ('more',), k)):
+                    n0 = len(calls)
+                    r2 = c(*a2, **k2)
+                    if len(calls) - n0 != 1 or r2 != ('f', a2, tuple(sorted(k2.items()))):
+                        bad.append('%s then (*%r, **%r): %d evaluations, result %r' % (txt, a2, k2, len(calls) - n0, r2))
     return dict(fails=bool(bad), detail='; '.join(bad[:3]) or '%d rebuilt cache cases agree with the oracle' % tried)
 
 
@@ -205,10 +212,23 @@ def replay_wrapper(call):
     bad, tried = [], 0
     f = lambda a, b=1: (a, b)       # noqa
     Ws = [try_value, try_back, kwargs_support, cache_func]
+    from pyg_base._decorators import wrapper
+
+    class and_add(wrapper):            # a wrapper without an __init__ of its own: wrapper.__init__ sees exactly the keywords given
+        def wrapped(self, *args, **kwargs):
+            return self.function(*args, **kwargs) + self.add
+    x = and_add(and_add(f, add=3, x=1), add=4)
+    if x.function is not f or x._kwargs != dict(add=4, x=1):
+        bad.append('and_add(and_add(f, add=3, x=1), add=4) = %r, expected function f with parameters add=4, x=1' % (x,))
     for W in Ws:
         tried += 1
         if W(W(f)).function is not f or W(W(f)) != W(f):
             bad.append('%s(%s(f)) wraps %r' % (W.__name__, W.__name__, W(W(f)).function))
+        try:
+            if list(W(f).fullargspec.args) != ['a', 'b'] or 'function' in W(W(f))._kwargs:
+                bad.append('%s(f).fullargspec.args = %r, parameters %r' % (W.__name__, W(f).fullargspec.args, W(W(f))._kwargs))
+        except Exception as e:      # noqa
+            bad.append('%s(f).fullargspec raised %r' % (W.__name__, e))
         for V_ in Ws:
             if V_ is W:
                 continue
